@@ -16,10 +16,11 @@ pub enum Case {
     BeltRaw { key: Vec<u8>, block: Vec<u8> },
     /// ThreefishN::new_with_tweak(key, tweak): E, D (bytes) and encrypt/decrypt_block_u64, new_with_tweak_u64
     Threefish { nw: usize, key: Vec<u8>, tweak: Vec<u8>, block: Vec<u8> },
+    /// `be` selects the implementation: 0 = the native aes crate, 1 = ARMv8 shadow, 2 = fixslice32 shadow.
     /// hazmat: f in {cipher_round, equiv_inv_cipher_round, mix_columns, inv_mix_columns} on one block
-    Hazmat { f: u8, block: Vec<u8>, rk: Vec<u8> },
+    Hazmat { f: u8, block: Vec<u8>, rk: Vec<u8>, #[serde(default)] be: u8 },
     /// hazmat *_par on eight (block, key) pairs: f in {0 cipher_round_par, 1 equiv_inv_cipher_round_par}
-    HazmatPar { f: u8, blocks: Vec<u8>, rks: Vec<u8> },
+    HazmatPar { f: u8, blocks: Vec<u8>, rks: Vec<u8>, #[serde(default)] be: u8 },
 }
 
 pub fn rc2_key(len: usize, kv: u8) -> Vec<u8> {
@@ -122,30 +123,54 @@ pub fn observe(c: &Case) -> Vec<u8> {
             }
         }
         #[cfg(feature = "allfeat")]
-        Case::Hazmat { f, block, rk } => {
-            let mut b = aes::Block::try_from(&block[..]).unwrap();
-            let k = aes::Block::try_from(&rk[..]).unwrap();
-            match f {
-                0 => aes::hazmat::cipher_round(&mut b, &k),
-                1 => aes::hazmat::equiv_inv_cipher_round(&mut b, &k),
-                2 => aes::hazmat::mix_columns(&mut b),
-                _ => aes::hazmat::inv_mix_columns(&mut b),
+        Case::Hazmat { f, block, rk, be } => {
+            macro_rules! go {
+                ($m:ident) => {{
+                    let mut b = $m::Block::try_from(&block[..]).unwrap();
+                    let k = $m::Block::try_from(&rk[..]).unwrap();
+                    match f {
+                        0 => $m::hazmat::cipher_round(&mut b, &k),
+                        1 => $m::hazmat::equiv_inv_cipher_round(&mut b, &k),
+                        2 => $m::hazmat::mix_columns(&mut b),
+                        _ => $m::hazmat::inv_mix_columns(&mut b),
+                    }
+                    b.to_vec()
+                }};
             }
-            b.to_vec()
+            match be {
+                0 => go!(aes),
+                #[cfg(not(aes_force_soft))]
+                1 => go!(aes_armv8),
+                #[cfg(aes_force_soft)]
+                1 => model(c),
+                _ => go!(aes_fs32),
+            }
         }
         #[cfg(feature = "allfeat")]
-        Case::HazmatPar { f, blocks, rks } => {
-            let mut bs = aes::hazmat::Block8::default();
-            let mut ks = aes::hazmat::Block8::default();
-            for i in 0..8 {
-                bs[i].copy_from_slice(&blocks[16 * i..16 * i + 16]);
-                ks[i].copy_from_slice(&rks[16 * i..16 * i + 16]);
+        Case::HazmatPar { f, blocks, rks, be } => {
+            macro_rules! go {
+                ($m:ident) => {{
+                    let mut bs = $m::hazmat::Block8::default();
+                    let mut ks = $m::hazmat::Block8::default();
+                    for i in 0..8 {
+                        bs[i].copy_from_slice(&blocks[16 * i..16 * i + 16]);
+                        ks[i].copy_from_slice(&rks[16 * i..16 * i + 16]);
+                    }
+                    match f {
+                        0 => $m::hazmat::cipher_round_par(&mut bs, &ks),
+                        _ => $m::hazmat::equiv_inv_cipher_round_par(&mut bs, &ks),
+                    }
+                    bs.iter().flat_map(|b| b.to_vec()).collect()
+                }};
             }
-            match f {
-                0 => aes::hazmat::cipher_round_par(&mut bs, &ks),
-                _ => aes::hazmat::equiv_inv_cipher_round_par(&mut bs, &ks),
+            match be {
+                0 => go!(aes),
+                #[cfg(not(aes_force_soft))]
+                1 => go!(aes_armv8),
+                #[cfg(aes_force_soft)]
+                1 => model(c),
+                _ => go!(aes_fs32),
             }
-            bs.iter().flat_map(|b| b.to_vec()).collect()
         }
         #[cfg(not(feature = "allfeat"))]
         Case::Hazmat { .. } | Case::HazmatPar { .. } => Vec::new(),
@@ -200,7 +225,7 @@ pub fn model(c: &Case) -> Vec<u8> {
             out.extend_from_slice(&d);
             out
         }
-        Case::Hazmat { f, block, rk } => {
+        Case::Hazmat { f, block, rk, .. } => {
             let mut b: [u8; 16] = block[..].try_into().unwrap();
             let k: [u8; 16] = rk[..].try_into().unwrap();
             match f {
@@ -211,7 +236,7 @@ pub fn model(c: &Case) -> Vec<u8> {
             }
             b.to_vec()
         }
-        Case::HazmatPar { f, blocks, rks } => {
+        Case::HazmatPar { f, blocks, rks, .. } => {
             let mut out = Vec::new();
             for i in 0..8 {
                 let mut b: [u8; 16] = blocks[16 * i..16 * i + 16].try_into().unwrap();
@@ -234,8 +259,8 @@ pub fn chunk_of(c: &Case) -> String {
         Case::Wblock { len, .. } => format!("belt_wblock/len{}", len.min(&1100) / 16),
         Case::BeltRaw { .. } => "belt_block_raw".into(),
         Case::Threefish { nw, .. } => format!("threefish-tweak/{nw}"),
-        Case::Hazmat { f, .. } => format!("hazmat/{f}"),
-        Case::HazmatPar { f, .. } => format!("hazmat-par/{f}"),
+        Case::Hazmat { f, be, .. } => format!("hazmat{}/{f}", ["", "@armv8", "@fs32"][*be as usize]),
+        Case::HazmatPar { f, be, .. } => format!("hazmat-par{}/{f}", ["", "@armv8", "@fs32"][*be as usize]),
     }
 }
 
@@ -295,22 +320,23 @@ pub fn threefish_cases(tier: Tier) -> Vec<Case> {
 
 pub fn hazmat_cases(tier: Tier) -> Vec<Case> {
     let mut v = Vec::new();
+    for be in 0..3u8 {
     let st = al::star(16, 16, tier, al::Plan::Full);
     for &(k, b) in &st.pairs {
         for f in 0..2u8 {
-            v.push(Case::Hazmat { f, block: st.blocks[b as usize].clone(), rk: st.keys[k as usize].clone() });
+            v.push(Case::Hazmat { f, block: st.blocks[b as usize].clone(), rk: st.keys[k as usize].clone(), be });
         }
     }
     for b in al::f_set(16, 2, tier) {
         for f in 2..4u8 {
-            v.push(Case::Hazmat { f, block: b.clone(), rk: vec![0; 16] });
+            v.push(Case::Hazmat { f, block: b.clone(), rk: vec![0; 16], be });
         }
     }
     // parallel forms: all blocks and keys different; and tuples that differ in lane j only
     let nt = if tier == Tier::Quick { 64 } else { 1024 };
     for t in 0..nt as u64 {
         for f in 0..2u8 {
-            v.push(Case::HazmatPar { f, blocks: al::dense(128, 80, t), rks: al::dense(128, 81, t) });
+            v.push(Case::HazmatPar { f, blocks: al::dense(128, 80, t), rks: al::dense(128, 81, t), be });
         }
     }
     for j in 0..8usize {
@@ -322,9 +348,10 @@ pub fn hazmat_cases(tier: Tier) -> Vec<Case> {
             blocks[16 * j..16 * j + 16].copy_from_slice(&al::dense(16, 84, t));
             rks[16 * j..16 * j + 16].copy_from_slice(&al::dense(16, 85, t));
             for f in 0..2u8 {
-                v.push(Case::HazmatPar { f, blocks: blocks.clone(), rks: rks.clone() });
+                v.push(Case::HazmatPar { f, blocks: blocks.clone(), rks: rks.clone(), be });
             }
         }
+    }
     }
     v
 }
